@@ -60,7 +60,33 @@ var (
 	zzC15HTML  = []string{"<html>", "<!DOCTYPE html>", "<HTML lang=\"en\">", "<!doctype html><html><head>", "<hTmL", "<!DocType"}
 	zzC15Bin   = []string{"\x00", "\x01", "\x02", "\x07", "\x08", "\x0e", "\x1b", "\x1f", "\x7f"}
 	zzC15VT    = []string{"\v", "\f"}
+	// Lines that start with a hash sign but are not plain comments.
+	zzC15Cosm = []string{"##.banner", "#@#.banner", "#?#div:has(> .ad)", "#$#body { overflow: auto }", "#%#//scriptlet('abort-on-property-read', 'x')"}
 )
+
+// zzC15CosmChoices returns the spellings of COSM that may be used: all of
+// them, or those named by VERIF_COSM (a JSON list).
+func zzC15CosmChoices() (xs []string) {
+	if v := zzGetenv("VERIF_COSM"); v != "" {
+		if err := json.Unmarshal([]byte(v), &xs); err == nil && len(xs) > 0 {
+			return xs
+		}
+	}
+
+	return zzC15Cosm
+}
+
+// zzC15CosmIsRule measures the parser's policy for one spelling: is such a
+// line, in a text without a title line, stored as a rule?
+func zzC15CosmIsRule(spelling string) (isRule bool) {
+	res, err := rulelist.NewParser().Parse(
+		io.Discard,
+		strings.NewReader(spelling+"\n"),
+		make([]byte, rulelist.DefaultRuleBufSize),
+	)
+
+	return err == nil && res.RulesCount == 1
+}
 
 func zzC15Pick(rng *rand.Rand, xs []string) (s string) { return xs[rng.Intn(len(xs))] }
 
@@ -75,6 +101,7 @@ func zzC15NewTable(rng *rand.Rand, scope string) (tb *zzC15Table) {
 		"HTML":  zzC15Pick(rng, zzC15HTML),
 		"BIN":   zzC15Pick(rng, zzC15Bin),
 		"VT":    zzC15Pick(rng, zzC15VT),
+		"COSM":  zzC15Pick(rng, zzC15CosmChoices()),
 	}}
 	if rng.Intn(3) == 0 {
 		tb.suffix = "$important"
@@ -249,6 +276,8 @@ func zzC15Rng(key string) (rng *rand.Rand) {
 type zzC15Outcome struct {
 	Ok    bool       `json:"ok"`
 	Rules [][]string `json:"rules"`
+	// Cosm is the parser policy under which the outcome is admissible.
+	Cosm bool `json:"cosm"`
 }
 
 type zzC15ParseVec struct {
@@ -337,10 +366,13 @@ func zzC15RunParser(tb *zzC15Table, ts []string, chunk int) (o *zzC15ParseObs) {
 }
 
 // zzC15ParseDiffs compares an observation with the admissible outcomes.
-func zzC15ParseDiffs(v *zzC15ParseVec, o *zzC15ParseObs) (diffs []string) {
+//
+// cosm is the policy of the real parser for the spelling in use, measured on
+// a text without a title line: only outcomes under that policy are admissible.
+func zzC15ParseDiffs(v *zzC15ParseVec, o *zzC15ParseObs, cosm bool) (diffs []string) {
 	if !o.Ok {
 		for _, a := range v.Adm {
-			if !a.Ok {
+			if !a.Ok && a.Cosm == cosm {
 				return nil
 			}
 		}
@@ -351,7 +383,7 @@ func zzC15ParseDiffs(v *zzC15ParseVec, o *zzC15ParseObs) (diffs []string) {
 	match := false
 	mayOk := false
 	for _, a := range v.Adm {
-		if !a.Ok {
+		if !a.Ok || a.Cosm != cosm {
 			continue
 		}
 
@@ -396,6 +428,11 @@ func TestZZVerifC15ParseReplay(t *testing.T) {
 	w := zzNewWriter(t, "VERIF_OUT")
 	defer w.close()
 
+	policies := map[string]bool{}
+	for _, sp := range zzC15Cosm {
+		policies[sp] = zzC15CosmIsRule(sp)
+	}
+
 	n, bad, nontrivial := 0, 0, 0
 	zzReadNDJSON(t, "VERIF_IN", func(line []byte) {
 		v := &zzC15ParseVec{}
@@ -414,7 +451,8 @@ func TestZZVerifC15ParseReplay(t *testing.T) {
 			nontrivial++
 		}
 
-		diffs := zzC15ParseDiffs(v, o)
+		cosm := policies[tb.tok("COSM")]
+		diffs := zzC15ParseDiffs(v, o, cosm)
 		if len(diffs) == 0 {
 			return
 		}
@@ -424,7 +462,7 @@ func TestZZVerifC15ParseReplay(t *testing.T) {
 		tb2 := zzC15NewTable(rng2, "x")
 		tb2.fit(v.T)
 		o2 := zzC15RunParser(tb2, v.T, 1<<20)
-		diffs2 := zzC15ParseDiffs(v, o2)
+		diffs2 := zzC15ParseDiffs(v, o2, cosm)
 		if len(diffs2) == 0 {
 			w.put(map[string]any{"kind": "chunking", "t": v.T, "diffs": diffs, "got": o})
 			bad++
@@ -433,10 +471,10 @@ func TestZZVerifC15ParseReplay(t *testing.T) {
 		}
 
 		bad++
-		w.put(map[string]any{"kind": "bad", "t": v.T, "adm": v.Adm, "diffs": diffs2, "got": o2})
+		w.put(map[string]any{"kind": "bad", "t": v.T, "adm": v.Adm, "cosm": cosm, "diffs": diffs2, "got": o2})
 	})
 
-	w.put(map[string]any{"kind": "summary", "n": n, "bad": bad, "nontrivial": nontrivial})
+	w.put(map[string]any{"kind": "summary", "n": n, "bad": bad, "nontrivial": nontrivial, "policies": policies})
 }
 
 // zzC15RandLine draws one line (without its ending) from a grammar richer
@@ -465,7 +503,11 @@ func zzC15RandLine(rng *rand.Rand, nAtoms int, parserOnly bool) (ts []string) {
 	case k < 27:
 		ts = append(ts, "BANG")
 	case k < 28:
-		ts = append(ts, "TITLE")
+		if rng.Intn(2) == 0 {
+			ts = append(ts, "TITLE")
+		} else {
+			ts = append(ts, "COSM")
+		}
 	case k < 33:
 		// Blank.
 	case k < 34:
@@ -499,6 +541,13 @@ func zzC15RandLine(rng *rand.Rand, nAtoms int, parserOnly bool) (ts []string) {
 // over-long lines.
 func zzC15RandText(rng *rand.Rand, n, nAtoms int, parserOnly, clean bool) (ts []string) {
 	ts = []string{}
+	// Every fourth text has a title line at a random position and "#"-lines
+	// that are not plain comments at two others.
+	titleAt, cosmAt, cosmAt2 := -1, -1, -1
+	if n > 0 && rng.Intn(4) == 0 {
+		titleAt, cosmAt, cosmAt2 = rng.Intn(n), rng.Intn(n), rng.Intn(n)
+	}
+
 	for i := 0; i < n; i++ {
 		var l []string
 		for {
@@ -513,6 +562,13 @@ func zzC15RandText(rng *rand.Rand, n, nAtoms int, parserOnly, clean bool) (ts []
 			if !clean || !dirty {
 				break
 			}
+		}
+
+		switch i {
+		case titleAt:
+			l = []string{"TITLE"}
+		case cosmAt, cosmAt2:
+			l = []string{"COSM"}
 		}
 
 		ts = append(ts, l...)
@@ -613,6 +669,8 @@ type zzC15Step struct {
 	Script map[string]zzC15Beh `json:"script"`
 	Dst    zzC15State          `json:"dst"`
 	Rew    []string            `json:"rew"`
+	// SumChg are the lists whose remembered checksum changes in this step.
+	SumChg []string `json:"sumchg"`
 }
 
 type zzC15Tour struct {
@@ -690,11 +748,15 @@ func zzC15NewWorld(rng *rand.Rand, tour *zzC15Tour) (w *zzC15World, err error) {
 	w.closedAddr = ln.Addr().String()
 	_ = ln.Close()
 
+	// One spelling of COSM for the whole world: the specification has one
+	// parser policy per installation.
+	cosm := zzC15Pick(rng, zzC15CosmChoices())
 	for i, name := range tour.Lists {
 		l := &zzC15List{
 			name: name, enabled: tour.Cfg.Enabled[name], src: tour.Cfg.Src[name],
 			id: rulelist.URLFilterID(i + 1), tb: zzC15NewTable(rng, name),
 		}
+		l.tb.m["COSM"] = cosm
 		for _, b := range tour.Block {
 			l.block = l.block || b == name
 		}
@@ -1053,6 +1115,7 @@ func zzC15Diff(lists []*zzC15List, want, got *zzC15State) (diffs []string) {
 type zzC15StepObs struct {
 	State      zzC15State        `json:"state"`
 	Rew        []string          `json:"rew"`
+	SumChg     []string          `json:"sumchg"`
 	Hits       map[string]int    `json:"hits"`
 	Raw        map[string]string `json:"raw"`
 	Unscripted int               `json:"unscripted"`
@@ -1093,7 +1156,9 @@ func (w *zzC15World) step(act *zzC15Act, script map[string]zzC15Beh) (o *zzC15St
 		before[l.name] = ino{n, ok}
 	}
 
-	o = &zzC15StepObs{Rew: []string{}}
+	sumsBefore := w.checksums()
+
+	o = &zzC15StepObs{Rew: []string{}, SumChg: []string{}}
 	switch {
 	case act.A == "restart":
 		err = w.restart()
@@ -1155,12 +1220,41 @@ func (w *zzC15World) step(act *zzC15Act, script map[string]zzC15Beh) (o *zzC15St
 		}
 	}
 
+	sumsAfter := w.checksums()
+	for _, l := range w.lists {
+		if sumsBefore[l.name] != sumsAfter[l.name] {
+			o.SumChg = append(o.SumChg, l.name)
+		}
+	}
+
 	w.mu.Lock()
 	o.Hits = w.hits
 	o.Unscripted = w.unscripted
 	w.mu.Unlock()
 
 	return o, nil
+}
+
+// checksums reads (never writes) the checksum the DNSFilter remembers per
+// list: what a refresh recorded, or what start-up computed from the stored
+// file.
+func (w *zzC15World) checksums() (sums map[string]uint32) {
+	sums = map[string]uint32{}
+
+	w.conf.filtersMu.RLock()
+	defer w.conf.filtersMu.RUnlock()
+
+	for _, fs := range [][]FilterYAML{w.conf.Filters, w.conf.WhitelistFilters} {
+		for i := range fs {
+			for _, l := range w.lists {
+				if l.url == fs[i].URL {
+					sums[l.name] = fs[i].checksum
+				}
+			}
+		}
+	}
+
+	return sums
 }
 
 func zzC15SameSet(a, b []string) (ok bool) {
@@ -1216,6 +1310,12 @@ func zzC15RunTour(tour *zzC15Tour, out *zzWriter, outMu *sync.Mutex) (steps, bad
 		if st.Act.A != "restart" && !zzC15SameSet(st.Rew, o.Rew) {
 			diffs = append(diffs, "rew")
 		}
+		if !zzC15SameSet(st.SumChg, o.SumChg) {
+			// The remembered checksum changes exactly when the specification's
+			// does; in particular a restart, which recomputes it from the stored
+			// file, does not change it.
+			diffs = append(diffs, "sum")
+		}
 		diffs = append(diffs, zzC15Contact(w, st.Script, o)...)
 		if len(diffs) == 0 {
 			continue
@@ -1224,31 +1324,13 @@ func zzC15RunTour(tour *zzC15Tour, out *zzWriter, outMu *sync.Mutex) (steps, bad
 		bad++
 		row := map[string]any{
 			"kind": "bad", "tour": tour.ID, "step": i, "diffs": diffs, "act": st.Act, "script": st.Script,
-			"want": st.Dst, "want_rew": st.Rew, "got": o,
+			"want": st.Dst, "want_rew": st.Rew, "want_sumchg": st.SumChg, "got": o,
 		}
 
-		// If only the rules in force differ, a restart over the same files must
-		// bring the object to the expected state; then the tour can go on.
-		onlyEng := true
-		for _, d := range diffs {
-			onlyEng = onlyEng && strings.HasPrefix(d, "eng:")
-		}
-
-		repaired := false
-		if onlyEng {
-			if rerr := w.restart(); rerr == nil {
-				s2, _, oerr := w.observe()
-				repaired = oerr == nil && len(zzC15Diff(w.lists, &st.Dst, &s2)) == 0
-			}
-		}
-
-		row["repaired"] = repaired
 		put(row)
-		if !repaired {
-			put(map[string]any{"kind": "truncated", "tour": tour.ID, "step": i, "lost": len(tour.Steps) - i - 1})
+		put(map[string]any{"kind": "truncated", "tour": tour.ID, "step": i, "lost": len(tour.Steps) - i - 1})
 
-			return steps, bad
-		}
+		return steps, bad
 	}
 
 	return steps, bad
@@ -1519,7 +1601,7 @@ func TestZZVerifC15RefreshTrace(t *testing.T) {
 			contact := zzC15Contact(w, script, o)
 			out.put(map[string]any{
 				"ev": "step", "trace": tr, "i": i, "act": act, "script": script,
-				"obs": o.State, "rew": o.Rew, "contact_ok": len(contact) == 0, "raw": o.Raw,
+				"obs": o.State, "rew": o.Rew, "sumchg": o.SumChg, "contact_ok": len(contact) == 0, "raw": o.Raw,
 			})
 		}
 
